@@ -3,7 +3,7 @@
    Write call kept as a separate chunk; [check] evaluates the model of
    Model/Container.v / Model/Writer.v on the same history and compares. *)
 Require Coq.Init.Byte Coq.Strings.Byte.
-Require Import Avro.Model.Base Avro.Model.Prim Avro.Model.Container Avro.Model.Writer Avro.Corr.Common.
+Require Import Avro.Model.Base Avro.Model.Prim Avro.Model.Container Avro.Model.Compress Avro.Model.Writer Avro.Corr.Common.
 Export Coq.Init.Byte.
 Export Avro.Model.Base Avro.Model.Container Avro.Model.Writer Avro.Corr.Common.
 
@@ -16,7 +16,10 @@ Definition ub (l : list Init.Byte.byte) : bytes := map (fun x => Z.of_N (Coq.Str
    for deflate and snappy the finite table  uncompressed payload -> stored
    bytes  observed on this run (the harness obtains the left column by
    decompressing every stored block with its own reference decompressor). *)
-Inductive comp := CNull | CTable (t : list (bytes * bytes)).
+(* CSnappy: the table holds only golang/snappy's own output for each payload (the stored
+   bytes without their last four); the model appends the big-endian CRC-32 of the payload
+   itself (Model/Compress.v, snappy_compress). *)
+Inductive comp := CNull | CTable (t : list (bytes * bytes)) | CSnappy (t : list (bytes * bytes)).
 
 Fixpoint lookup (t : list (bytes * bytes)) (x : bytes) {struct t} : bytes :=
   match t with
@@ -28,6 +31,7 @@ Definition comp_fn (c : comp) : bytes -> bytes :=
   match c with
   | CNull => fun x => x
   | CTable t => lookup t
+  | CSnappy t => snappy_compress (lookup t)
   end.
 
 Definition lastn {A} (n : nat) (l : list A) : list A := skipn (length l - n) l.
